@@ -142,6 +142,10 @@ type Ctx struct {
 	cur      atomic.Pointer[Case]
 	// the last few executed cases (history for findings that depend on earlier calls)
 	recent []Case
+	// Last is the barcode most recently accepted through an evaluator; Reuse, when set, is
+	// examined by the next evaluator instead of encoding again (snapshot re-examination).
+	Last  any
+	Reuse any
 }
 
 const historyLen = 8
